@@ -251,12 +251,14 @@ def primary (cfg : Cfg) (w : World) (p : Pkg) : Except BuildErr PkgInfo :=
     -- setImports: files in name order
     let specs := (sortBy (·.name) p.files).flatMap (·.imports)
     let tagged := specs.map fun sp => (sp.path, getImportTag cfg.importTag cfg.lenConst cfg.fields sp)
-    -- importNames[path] = alias : a later mention overwrites an earlier one
+    -- importNames[path] = set of aliases: a package tagged under two aliases contributes under both (D27 fix);
+    -- the same (path, alias) mentioned twice counts once
     let named : List (String × String) := tagged.foldl (fun acc (path, t) => match t with
-      | .named a => (acc.filter (·.1 ≠ path)) ++ [(path, a)]
+      | .named a => if acc.contains (path, a) then acc else acc ++ [(path, a)]
       | _ => acc) []
     let roots : List String := tagged.filterMap fun (path, t) => match t with | .root => some path | _ => none
-    let namedSorted := sortBy (·.1) named
+    -- getNamedImports: paths in order, the aliases of one path in order (mergeSort is stable)
+    let namedSorted := sortBy (·.1) (sortBy (·.2) named)
     let rootsSorted := dedupAdjacent (sortBy id roots)
     let wanted : List (String × String) := namedSorted.map (fun (path, a) => (a, path)) ++ rootsSorted.map (fun path => ("", path))
     let rec load (l : List (String × String)) : Except BuildErr (List (String × String × String × List Function)) :=
